@@ -344,6 +344,209 @@ theorem live_iceland (R : Registry) (hR : NoMethodNames R (bytes "IS")) (b : Str
       if iceland b then .ok true else .err .invalidBBANChecksum :=
   iceland_rule (Gen.ctx R) C10.unicode_wf live_layout_is hR b (fitsClasses_of_layout live_layout_is hf)
 
+/-! ### The IBAN level: "an otherwise valid IBAN … is accepted exactly when its national check digits
+    satisfy the country's published algorithm" -/
+
+/-- For a text that is valid without national validation, `IBAN(text, validate_bban=True)` is the
+    national check of its BBAN (and returns the compact form when that passes); for any other text
+    it fails exactly as it does without national validation. -/
+theorem new_national_eq (X : Ctx) (hU : X.U.WF) (hT : X.T.WF) (s : Str) :
+    IBAN.new X s false true =
+      if isoValid X.T (clean X.U s) = true then
+        (BBAN.validateNational X ((clean X.U s).take 2) ((clean X.U s).drop 4)).bind
+          (fun _ => .ok (clean X.U s))
+      else IBAN.new X s false false := by
+  have hcomp := compact_clean hU s
+  unfold IBAN.new
+  simp only [Bool.false_eq_true, ↓reduceIte]
+  generalize clean X.U s = c at hcomp ⊢
+  have hiff : IBAN.validate X c false = .ok true ↔ isoValid X.T c = true := by
+    rw [validate_eq_tree X hcomp]; exact tree_ok_iff_isoValid hU hT hcomp
+  show (IBAN.validate X c true).bind (fun _ => Res.ok c) = _
+  by_cases hv : isoValid X.T c = true
+  · rw [if_pos hv]
+    have hok := hiff.mpr hv
+    have h4 : 4 ≤ c.length := by
+      unfold isoValid at hv
+      cases hl : X.T.lookup (c.take 2) with
+      | none => simp [hl] at hv
+      | some e =>
+        simp only [hl, Bool.and_eq_true, beq_iff_eq] at hv
+        have := hv.1.1.1.1.1.1; omega
+    unfold IBAN.validate at hok ⊢
+    cases h1 : IBAN.validateCharacters X.U c <;> simp only [h1, bind, Res.bind] at hok ⊢ <;> try cases hok
+    cases h2 : IBAN.validateLength X.T c <;> simp only [h2] at hok ⊢ <;> try cases hok
+    cases h3 : IBAN.validateFormat X.U X.T c <;> simp only [h3] at hok ⊢ <;> try cases hok
+    cases h4' : IBAN.validateChecksum X.U c <;> simp only [h4'] at hok ⊢ <;> try cases hok
+    rw [countryCode_eq (by omega), bban_of_compact hcomp]
+    cases BBAN.validateNational X (c.take 2) (c.drop 4) <;> rfl
+  · rw [if_neg hv]
+    have hne : IBAN.validate X c false ≠ .ok true := fun h => hv (hiff.mp h)
+    show _ = (IBAN.validate X c false).bind (fun _ => Res.ok c)
+    unfold IBAN.validate at hne ⊢
+    cases h1 : IBAN.validateCharacters X.U c <;> simp only [h1, bind, Res.bind] at hne ⊢
+    cases h2 : IBAN.validateLength X.T c <;> simp only [h2] at hne ⊢
+    cases h3 : IBAN.validateFormat X.U X.T c <;> simp only [h3] at hne ⊢
+    cases h4' : IBAN.validateChecksum X.U c <;> simp only [h4'] at hne ⊢
+    exact absurd rfl hne
+
+/-- **C06 at the IBAN level**, generic: if the national check of every structure-conforming BBAN of
+    country `cc` is `if rule b then True else raise`, then an IBAN of that country is accepted with
+    national validation exactly when it is valid without and its BBAN satisfies the rule. -/
+theorem iban_accept_iff (X : Ctx) (hU : X.U.WF) (hT : X.T.WF) {cc : Str} {rule : Str → Bool}
+    {err : Str → Err}
+    (hrule : ∀ b, fitsCountry X.T cc b = true →
+      BBAN.validateNational X cc b = if rule b then .ok true else .err (err b))
+    (s : Str) (hcc : (clean X.U s).take 2 = cc) :
+    (IBAN.new X s false true).isOk = true ↔
+      isoValid X.T (clean X.U s) = true ∧ rule ((clean X.U s).drop 4) = true := by
+  rw [new_national_eq X hU hT s]
+  by_cases hv : isoValid X.T (clean X.U s) = true
+  · rw [if_pos hv, hcc]
+    have hfit : fitsCountry X.T cc ((clean X.U s).drop 4) = true := by
+      unfold isoValid at hv
+      unfold fitsCountry
+      rw [hcc] at hv
+      cases hl : X.T.lookup cc with
+      | none => simp [hl] at hv
+      | some e =>
+        simp only [hl, Bool.and_eq_true] at hv
+        exact hv.1.1.1.2
+    rw [hrule _ hfit]
+    by_cases hr : rule ((clean X.U s).drop 4) = true
+    · simp [hr, hv, Res.bind]
+    · simp [hr, hv, Res.bind]
+  · rw [if_neg hv]
+    have : ¬ (IBAN.new X s false false).isOk = true := fun h => hv ((C01.accept_iff X hU hT s).mp h)
+    simp [hv, this]
+
+/-- **Error soundness with national validation** (C05's last clause, generic): an error raised by
+    `IBAN(text, validate_bban=True)` is either the error the text gets without national validation
+    (the text is not valid without it), or — the text being valid without it — the error of the
+    national check of its BBAN; with the country's rule: the rule really fails for that BBAN. -/
+theorem national_error_sound (X : Ctx) (hU : X.U.WF) (hT : X.T.WF) {cc : Str} {rule : Str → Bool}
+    {err : Str → Err}
+    (hrule : ∀ b, fitsCountry X.T cc b = true →
+      BBAN.validateNational X cc b = if rule b then .ok true else .err (err b))
+    (s : Str) (hcc : (clean X.U s).take 2 = cc) (k : Err) (h : IBAN.new X s false true = .err k) :
+    (isoValid X.T (clean X.U s) = false ∧ IBAN.new X s false false = .err k) ∨
+    (isoValid X.T (clean X.U s) = true ∧ rule ((clean X.U s).drop 4) = false ∧
+      k = err ((clean X.U s).drop 4)) := by
+  rw [new_national_eq X hU hT s] at h
+  by_cases hv : isoValid X.T (clean X.U s) = true
+  · right
+    rw [if_pos hv, hcc] at h
+    have hfit : fitsCountry X.T cc ((clean X.U s).drop 4) = true := by
+      unfold isoValid at hv
+      unfold fitsCountry
+      rw [hcc] at hv
+      cases hl : X.T.lookup cc with
+      | none => simp [hl] at hv
+      | some e =>
+        simp only [hl, Bool.and_eq_true] at hv
+        exact hv.1.1.1.2
+    rw [hrule _ hfit] at h
+    by_cases hr : rule ((clean X.U s).drop 4) = true
+    · simp [hr, Res.bind] at h
+    · simp only [hr, Bool.false_eq_true, ↓reduceIte, Res.bind, Res.err.injEq] at h
+      exact ⟨hv, by simpa using hr, h.symm⟩
+  · left
+    rw [if_neg hv] at h
+    exact ⟨by simpa using hv, h⟩
+
+/-- Spain, at the IBAN level, on the live tables. -/
+theorem live_spain_iban (R : Registry) (hR : NoMethodNames R (bytes "ES")) (s : Str)
+    (hcc : (clean Gen.unicode s).take 2 = bytes "ES") :
+    (IBAN.new (Gen.ctx R) s false true).isOk = true ↔
+      isoValid Gen.table (clean Gen.unicode s) = true ∧ spain ((clean Gen.unicode s).drop 4) = true :=
+  iban_accept_iff (Gen.ctx R) C10.unicode_wf C01.table_wf (err := fun _ => .invalidBBANChecksum)
+    (fun b hb => live_spain R hR b hb) s hcc
+
+/-- France, at the IBAN level, on the live tables. -/
+theorem live_france_iban (R : Registry) (hR : NoMethodNames R (bytes "FR")) (s : Str)
+    (hcc : (clean Gen.unicode s).take 2 = bytes "FR") :
+    (IBAN.new (Gen.ctx R) s false true).isOk = true ↔
+      isoValid Gen.table (clean Gen.unicode s) = true ∧ france ((clean Gen.unicode s).drop 4) = true :=
+  iban_accept_iff (Gen.ctx R) C10.unicode_wf C01.table_wf (err := fun _ => .invalidBBANChecksum)
+    (fun b hb => live_france R hR b hb) s hcc
+
+/-- Norway (two error classes), at the IBAN level, on the live tables. -/
+theorem live_norway_iban (R : Registry) (hR : NoMethodNames R (bytes "NO")) (s : Str)
+    (hcc : (clean Gen.unicode s).take 2 = bytes "NO") :
+    (IBAN.new (Gen.ctx R) s false true).isOk = true ↔
+      isoValid Gen.table (clean Gen.unicode s) = true ∧ norway ((clean Gen.unicode s).drop 4) = true :=
+  iban_accept_iff (Gen.ctx R) C10.unicode_wf C01.table_wf
+    (rule := norway) (err := fun b => if norwayUnusable b then .invalidAccountCode else .invalidBBANChecksum)
+    (fun b hb => by
+      rw [live_norway R hR b hb]
+      by_cases hu : norwayUnusable b = true
+      · have : norway b = false := by simp [norway, hu]
+        simp [hu, this]
+      · simp [hu]) s hcc
+
+theorem live_monaco_iban (R : Registry) (hR : NoMethodNames R (bytes "MC")) (s : Str)
+    (hcc : (clean Gen.unicode s).take 2 = bytes "MC") :
+    (IBAN.new (Gen.ctx R) s false true).isOk = true ↔
+      isoValid Gen.table (clean Gen.unicode s) = true ∧ france ((clean Gen.unicode s).drop 4) = true :=
+  iban_accept_iff (Gen.ctx R) C10.unicode_wf C01.table_wf (err := fun _ => .invalidBBANChecksum)
+    (fun b hb => live_monaco R hR b hb) s hcc
+
+theorem live_italy_iban (R : Registry) (hR : NoMethodNames R (bytes "IT")) (s : Str)
+    (hcc : (clean Gen.unicode s).take 2 = bytes "IT") :
+    (IBAN.new (Gen.ctx R) s false true).isOk = true ↔
+      isoValid Gen.table (clean Gen.unicode s) = true ∧ italy ((clean Gen.unicode s).drop 4) = true :=
+  iban_accept_iff (Gen.ctx R) C10.unicode_wf C01.table_wf (err := fun _ => .invalidBBANChecksum)
+    (fun b hb => live_italy R hR b hb) s hcc
+
+theorem live_san_marino_iban (R : Registry) (hR : NoMethodNames R (bytes "SM")) (s : Str)
+    (hcc : (clean Gen.unicode s).take 2 = bytes "SM") :
+    (IBAN.new (Gen.ctx R) s false true).isOk = true ↔
+      isoValid Gen.table (clean Gen.unicode s) = true ∧ italy ((clean Gen.unicode s).drop 4) = true :=
+  iban_accept_iff (Gen.ctx R) C10.unicode_wf C01.table_wf (err := fun _ => .invalidBBANChecksum)
+    (fun b hb => live_san_marino R hR b hb) s hcc
+
+theorem live_finland_iban (R : Registry) (hR : NoMethodNames R (bytes "FI")) (s : Str)
+    (hcc : (clean Gen.unicode s).take 2 = bytes "FI") :
+    (IBAN.new (Gen.ctx R) s false true).isOk = true ↔
+      isoValid Gen.table (clean Gen.unicode s) = true ∧ finland ((clean Gen.unicode s).drop 4) = true :=
+  iban_accept_iff (Gen.ctx R) C10.unicode_wf C01.table_wf (err := fun _ => .invalidBBANChecksum)
+    (fun b hb => live_finland R hR b hb) s hcc
+
+theorem live_poland_iban (R : Registry) (hR : NoMethodNames R (bytes "PL")) (s : Str)
+    (hcc : (clean Gen.unicode s).take 2 = bytes "PL") :
+    (IBAN.new (Gen.ctx R) s false true).isOk = true ↔
+      isoValid Gen.table (clean Gen.unicode s) = true ∧ poland ((clean Gen.unicode s).drop 4) = true :=
+  iban_accept_iff (Gen.ctx R) C10.unicode_wf C01.table_wf (err := fun _ => .invalidBBANChecksum)
+    (fun b hb => live_poland R hR b hb) s hcc
+
+theorem live_estonia_iban (R : Registry) (hR : NoMethodNames R (bytes "EE")) (s : Str)
+    (hcc : (clean Gen.unicode s).take 2 = bytes "EE") :
+    (IBAN.new (Gen.ctx R) s false true).isOk = true ↔
+      isoValid Gen.table (clean Gen.unicode s) = true ∧ estonia ((clean Gen.unicode s).drop 4) = true :=
+  iban_accept_iff (Gen.ctx R) C10.unicode_wf C01.table_wf (err := fun _ => .invalidBBANChecksum)
+    (fun b hb => live_estonia R hR b hb) s hcc
+
+theorem live_czechia_iban (R : Registry) (hR : NoMethodNames R (bytes "CZ")) (s : Str)
+    (hcc : (clean Gen.unicode s).take 2 = bytes "CZ") :
+    (IBAN.new (Gen.ctx R) s false true).isOk = true ↔
+      isoValid Gen.table (clean Gen.unicode s) = true ∧ czech ((clean Gen.unicode s).drop 4) = true :=
+  iban_accept_iff (Gen.ctx R) C10.unicode_wf C01.table_wf (err := fun _ => .invalidBBANChecksum)
+    (fun b hb => live_czechia R hR b hb) s hcc
+
+theorem live_slovakia_iban (R : Registry) (hR : NoMethodNames R (bytes "SK")) (s : Str)
+    (hcc : (clean Gen.unicode s).take 2 = bytes "SK") :
+    (IBAN.new (Gen.ctx R) s false true).isOk = true ↔
+      isoValid Gen.table (clean Gen.unicode s) = true ∧ czech ((clean Gen.unicode s).drop 4) = true :=
+  iban_accept_iff (Gen.ctx R) C10.unicode_wf C01.table_wf (err := fun _ => .invalidBBANChecksum)
+    (fun b hb => live_slovakia R hR b hb) s hcc
+
+theorem live_iceland_iban (R : Registry) (hR : NoMethodNames R (bytes "IS")) (s : Str)
+    (hcc : (clean Gen.unicode s).take 2 = bytes "IS") :
+    (IBAN.new (Gen.ctx R) s false true).isOk = true ↔
+      isoValid Gen.table (clean Gen.unicode s) = true ∧ iceland ((clean Gen.unicode s).drop 4) = true :=
+  iban_accept_iff (Gen.ctx R) C10.unicode_wf C01.table_wf (err := fun _ => .invalidBBANChecksum)
+    (fun b hb => live_iceland R hR b hb) s hcc
+
 /-! ### Non-vacuity: known valid account numbers satisfy the published rules, neighbours do not -/
 
 example : fitsCountry Gen.table (bytes "ES") (bytes "21000418450200051332") = true := by decide +kernel
